@@ -1,6 +1,7 @@
 import BeffVerif.Driver.Codec
 import BeffVerif.Model.TsCore
 import BeffVerif.Model.Spec
+import BeffVerif.Model.Describe
 /-! Driver handler for `(prog <id> <tscore-prog> <files> <values>)` (C01, C08, C15, C04). -/
 namespace BeffVerif.Driver
 open BeffVerif
@@ -87,5 +88,30 @@ def rewriteHyps (pS qS : Sexp) (script : List Sexp) : Sexp :=
        (if naming && (Spec.hasRecursion p || Spec.hasRecursion q) then [Sexp.atom "NoNamingWithRecursion"] else []) ++
        (if naming && (Spec.hasRefInInter p || Spec.hasRefInInter q) then [Sexp.atom "NoNamedIntersectionMember"] else [])))
   | _, _ => .list [.atom "hyp-failed"]
+
+/-- `(describe id prog files values)`: the text `describe()` prints for the single export -/
+def describeOp (progS : Sexp) : Sexp :=
+  match decProg progS with
+  | some p =>
+    match compile p with
+    | .ok env [(name, rt)] =>
+      -- the printed names of generic instances (`Base_Arg` / `Base_instance_N`, lib.rs:430-466) are not modelled
+      if env.any (fun e => (e.1.splitOn "<").length > 1) then .atom "untied"
+      else .list [.atom "described", .str (RT.describe env name rt)]
+    | .ok _ _ => .list [.atom "model-error"]
+    | .diags _ => .list [.atom "diags"]
+    | .nofuel => .atom "model-nofuel"
+  | none => .list [.atom "model-decode-error"]
+
+def describeHyps (progS : Sexp) : Sexp :=
+  match decProg progS with
+  | some p =>
+    .list (.atom "hyp-failed" ::
+      ((if Spec.hasUnion p then [Sexp.atom "NoNamingNearUnion"] else []) ++
+       (if Spec.hasRecursion p then [Sexp.atom "NoNamingWithRecursion"] else []) ++
+       (if Spec.hasRefInInter p then [Sexp.atom "NoNamedIntersectionMember"] else []) ++
+       (if Spec.noTemplateAlternation p then [] else [Sexp.atom "NoTemplateAlternation"]) ++
+       (if Spec.noMixedIndexObject p then [] else [Sexp.atom "NoMixedIndexObject"])))
+  | none => .list [.atom "hyp-failed"]
 
 end BeffVerif.Driver
